@@ -1,7 +1,7 @@
 (* C14 — the UI never crashes or hangs and always leaves terminal and system clean (PARTIAL: the logic core).
    Statements only; proofs live in proofs/TermProofs.v.  What is NOT here: panic- and hang-freedom of the real
    renderer / key decoder (explored by the check, not proved). *)
-From Fzf Require Import Prelude TermSpec TermModel TermProofs StartSpec StartModel StartProofs.
+From Fzf Require Import Prelude TermSpec TermModel TermProofs StartSpec StartModel StartProofs MouseSpec MouseModel MouseProofs.
 Open Scope Z_scope.
 
 (* For EVERY configuration (fullscreen or --height, --no-clear, --no-mouse, --no-input, any window height,
@@ -186,3 +186,28 @@ Example c14_nonvacuous_start :
   observation true (restart_trace bad) = [1; 1; 1; 1] /\ observation true (restart_trace_nosend bad) = [0; 1; 1; 1] /\
   observation_okb true (observation true (restart_trace_nosend bad)) = false.
 Proof. vm_compute. repeat split; reflexivity. Qed.
+
+(* Mouse histories (src/terminal.go, the actMouse handler of Terminal.Loop, the part that ends in
+   `prevLine := t.prevLines[my]`): the state kept across the events of a gesture (button held, scrollbar dragging), its
+   reset on release, the "Ignored" guard that dragging disables, the translation of coordinates per layout and the
+   scrollbar-dragging branch.  For EVERY geometry whose list window is no taller than the table of printed lines, every
+   layout, every dragging state and EVERY history of events -- pointer anywhere, inside or outside the screen; presses,
+   motion with the button held, releases in any order; any event consumed by an earlier branch (wheel, preview, input,
+   header); a scrollbar of any length or none at any moment -- every row looked up in the table lies inside it.
+   NOT covered: the earlier branches themselves (preview scrollbar / border dragging), what is done with the row
+   afterwards; the model is tied to the Go code by the session stream only (no hook reaches the handler). *)
+Theorem mouse_row_in_bounds : forall g st es, geom_ok g -> Forall (safe g) (mouse_run g st es).
+Proof. exact mouse_row_in_bounds_proof. Qed.
+Print Assumptions mouse_row_in_bounds.
+
+(* the scrollbar branch must leave the handler whether or not a scrollbar exists: the variant that falls through without
+   one looks up a negative row after a press on the list's last column and motion below the window *)
+Theorem mouse_break_needed : exists g es, geom_ok g /\ ~ Forall (safe g) (mouse_run_fallthrough g mst0 es).
+Proof. exact mouse_break_needed_proof. Qed.
+Print Assumptions mouse_break_needed.
+
+(* non-vacuity: a geometry that satisfies the hypothesis, and a history in which rows ARE looked up *)
+Example mouse_geom_ok : geom_ok (mkGeom 1 2 5 10 2 0 8) /\
+  mouse_run (mkGeom 1 2 5 10 2 0 8) mst0 [mkMev 3 2 true false 0; mkMev 11 2 true false 0; mkMev 11 7 true false 0; mkMev 11 7 false false 0; mkMev 4 1 true false 0]
+  = [Row 3; Row 3; Stop; Stop; Row 4].
+Proof. split; [unfold geom_ok; cbn; lia | vm_compute; reflexivity]. Qed.
